@@ -193,6 +193,19 @@ Proof.
   split; [now rewrite B | exact A].
 Qed.
 
+(* retighten (finalize of a reference-only paragraph): only the tight flag of a List changes *)
+Lemma retighten_NI o st p st' : retighten st p = Ok st' -> NI o st -> NI o st'.
+Proof.
+  unfold retighten. intros H V. destruct p as [item|]; [|inversion H; subst; exact V].
+  destruct (parent_of item (ps_root st)) as [lid|]; [|inversion H; subst; exact V].
+  destruct (get st lid) as [l| |] eqn:G; cbn [bind] in H; try discriminate H.
+  destruct (bi_open (binf l)); [inversion H; subst; exact V|].
+  destruct (bval l) eqn:Bv; try (inversion H; subst; exact V).
+  eapply modify_info_NI; [exact V | exact H |].
+  intros n Fn. rewrite (get_find _ _ _ G) in Fn. inversion Fn; subst. unfold bval in Bv. cbn. rewrite Bv.
+  split; [reflexivity | intro HD; discriminate HD].
+Qed.
+
 (* ---- finalize: the value changes only CodeBlock -> CodeBlock, HtmlBlock -> HtmlBlock, NList -> NList *)
 Lemma finalize_NI o st id p st' : finalize o st id = Ok (p, st') -> NI o st -> NI o st'.
 Proof.
@@ -203,6 +216,7 @@ Proof.
   assert (Vv : bvok o (bi_val (binf a)) = true) by (destruct a as [i ch]; apply ball_node in Va; tauto).
   destruct (bi_val (binf a)) eqn:Ev; mon F;
   repeat first [ apply NI_st_refmap
+               | (eapply retighten_NI; [eassumption|])
                | (eapply bdetach_NI; [eassumption|])
                | (eapply modify_info_NI; [exact V | eassumption |
                     intros n Fn; rewrite E in Fn; inversion Fn; subst; cbn; rewrite ?Ev;
